@@ -23,7 +23,10 @@ func vOpTake(n int64) func(ro.Observable[int64]) ro.Observable[int64] { return r
 func vC19Pipe(L int) {
 	arity := 1 + vChoice("arity", 3)
 	licence := vChoice("licence", 2) == 1
-	bypassLicenseCheck = licence
+	// the licence state while the pipeline is built need not be the one in force when it is
+	// subscribed (a package-level pipeline is built before the licence is installed): what counts
+	// is the state at subscription
+	bypassLicenseCheck = vChoice("licenceAtBuild", 2) == 1
 	in := vLegalScript("s", L)
 	n := vInt64("n")
 	vAssume(n >= 1)
@@ -55,6 +58,7 @@ func vC19Pipe(L int) {
 	ctx := context.WithValue(context.Background(), vKeySub, m)
 	totalOut := 0
 	totalIn := 0
+	bypassLicenseCheck = licence
 	for k := 0; k < subsN; k++ {
 		got := &vRecorder{name: "g" + vItoa(k)}
 		want := &vRecorder{name: "w" + vItoa(k)}
